@@ -391,7 +391,8 @@ def check_beats(ctx: Ctx):
             mv, me = make_metric_objs(prog, dec)
             self_obj = me if f.cls.name == "Metric" else mv
             # representatives of the three orderings, including a falsy threshold/score
-            for cmp_, pairs in (("<", [(0.0, 0.5), (0.25, 0.5), (0.5, 3)]), ("=", [(0.0, 0.0), (0.5, 0.5), (1, 1)]), (">", [(0.5, 0.0), (1, 0.5), (7, 3)])):
+            # (incl. scores/thresholds that are 0 and a score a hair's breadth off the threshold)
+            for cmp_, pairs in (("<", [(0.0, 0.5), (0.25, 0.5), (0.5, 3), (0.499996, 0.5), (0.5 - 2**-40, 0.5)]), ("=", [(0.0, 0.0), (0.5, 0.5), (1, 1)]), (">", [(0.5, 0.0), (1, 0.5), (7, 3), (0.500004, 0.5), (0.5 + 2**-40, 0.5)])):
                 vals = set()
                 for s, t in pairs:
                     it = Interp(prog, f, {ps[0]: s, ps[1]: t}, self_obj=self_obj)
